@@ -490,6 +490,22 @@ func expand(p *packages.Package, f *ast.File, src []byte, s inlineSite, n int, r
 		}
 		if simple {
 			if e, imps, ok := substExpr(p, f, src, csrc, s, returns[0].Results[0]); ok {
+				// `defer helper(x)` / `go helper(x)`: the statement needs a call, unparenthesised;
+				// the helper's arguments are evaluated at the defer statement either way (they are
+				// simple) and its body — one call — runs deferred
+				deferred := false
+				switch st := stmt.(type) {
+				case *ast.DeferStmt:
+					deferred = st.Call == s.call
+				case *ast.GoStmt:
+					deferred = st.Call == s.call
+				}
+				if deferred {
+					if _, isCall := returns[0].Results[0].(*ast.CallExpr); !isCall {
+						return nil, nil, "deferred helper whose body is not a call"
+					}
+					return &edit{off(s.call.Pos()), off(s.call.End()), e}, imps, ""
+				}
 				return &edit{off(s.call.Pos()), off(s.call.End()), "(" + e + ")"}, imps, ""
 			}
 		}
@@ -1189,7 +1205,17 @@ func substExpr(p *packages.Package, f *ast.File, src, csrc []byte, s inlineSite,
 				}
 			}
 		} else if _, isVar := obj.(*types.Var); isVar && !obj.(*types.Var).IsField() {
-			okAll = false // a local of the helper: not a pure expression
+			// a local of the helper: not a pure expression — unless the "helper" is a local closure
+			// and the variable is one it captures, still meaning the same thing where it is called
+			captured := false
+			if s.callee.Lit != nil && scope != nil && !(s.callee.Lit.Pos() <= obj.Pos() && obj.Pos() <= s.callee.Lit.End()) {
+				if _, o2 := scope.LookupParent(id.Name, s.call.Pos()); o2 == obj {
+					captured = true
+				}
+			}
+			if !captured {
+				okAll = false
+			}
 		}
 		return true
 	})
